@@ -588,3 +588,27 @@ PROPS["C17"] = Prop(
     technique="ThreadSanitizer (gcc -fsanitize=thread) on reader swarms and independent-history thread groups + per-thread result digests compared with a single-threaded run",
     level_text="exploration: TSan over concurrent readers of one refreshed topology and over threads with independent topologies; results compared with single-threaded runs",
 )
+
+
+PROPS["C10"] = Prop(
+    "C10",
+    [Stage("asan", "c10_bind", "asan", quick=2400, thorough=40000, nworkers=8)],
+    rule=("the harness executable defines sched_setaffinity / sched_getaffinity / pthread_set/getaffinity_np / syscall (mbind, set_mempolicy, get_mempolicy, "
+          "migrate_pages, move_pages); the statically linked library binds to them, every call and mask is logged. 3 of 4 cases (fake kernel with 64..4096 "
+          "CPUs / 64..1024 nodes): a synthetic or corpus-XML topology loaded with or without HWLOC_TOPOLOGY_FLAG_IS_THISSYSTEM, 24 random calls over the "
+          "17 binding entry points x 8 set classes (subset, topology set, superset, complete, only-offline, empty, outside complete, infinite) x flag words "
+          "(incl. unknown bits) x 8 policy values: invalid arguments must give -1/EINVAL with no binding call logged; on a foreign topology set-calls return 0 "
+          "with nothing logged and get-calls report the complete set / MIXED; missing Linux hooks give -1/ENOSYS; every mask logged during a set-call on a "
+          "this-system topology must be non-empty, inside the complete set, equal to the complete set when the input covers the topology set and equal to "
+          "the input otherwise. 1 of 4 cases (pass-through, the running system): pre-bind the thread to a random subset, hwloc_topology_load with "
+          "6 component selections x flags: sched_getaffinity after == before (no setaffinity at all with DONT_CHANGE_BINDING); then 12 subsets of the "
+          "allowed CPUs: set_cpubind(THREAD) / get_cpubind == subset == kernel mask, get_last_cpu_location inside it. distinct+non-trivial = class 1: "
+          "(entry point, flags, set class, topology kind) of calls whose proper-subset mask reached the fake kernel; class 2: live subsets round-tripped"),
+    nontrivial_classes=[1, 2], floor=40,
+    assumptions=COMMON_ASSUME + ["mutually exclusive flag pairs (PROCESS|THREAD) are not expected to be rejected: the statement lists unknown bits only",
+                                 "hwloc_alloc_membind without STRICT is documented to fall back to a plain allocation on an invalid set; it must then not call mbind",
+                                 "memory-binding system calls are only observed through the fake kernel",
+                                 "the old-nodes mask of migrate_pages designates sources ('all nodes') and is not judged"],
+    technique="runtime monitor at the OS boundary: link-time interposition of the affinity / mempolicy entry points (logging + kernel emulation), errno oracles, live round trip",
+    level_text="exploration: random binding calls over generated sets, flags and policies with every OS-boundary call logged; live affinity round trips on the sandbox CPUs",
+)
